@@ -545,11 +545,15 @@ class Rig:
         `unseen`; then advance the folder mtime."""
         path = self.maildir / folder
         mh = mailbox.MH(str(path), create=False)
+        # like nmh's inc/rcvstore: the folder and its sequences are read first (entries for
+        # messages that do not exist are dropped there), then the messages are added, then
+        # the sequences are written back
+        seqs0 = mh.get_sequences()
         keys = []
         for m in msgs:
             keys.append(int(mh.add(m)))
         if unseen:
-            seqs = mh.get_sequences()
+            seqs = seqs0
             cur = set(seqs.get("unseen", []))
             flags = unseen if isinstance(unseen, (list, tuple)) else [True] * len(keys)
             for k, f in zip(keys, flags):
